@@ -52,8 +52,46 @@ CASES = [
     ("refuse", "field", "fn f<FF>(x: &mut [FF]) { for e in x.iter_mut() { let x = 1u32; *e = *e + *e; } }"),     # body re-binds the slice
     ("refuse", "field", "fn f<FF>(x: &mut [FF]) { for (i, e) in x.iter_mut().enumerate() { *e = *e + *e; } }"),  # tuple pattern over an adaptor chain
     ("refuse", "field", "fn f<FF>(x: &mut [FF], o: BFieldElement) { let r = BFieldElement::primitive_root_of_unity(4).unwrap(); }"),  # no `root` parameter in this group
-    ("refuse", "field", "fn f<FF>(x: &mut [FF], o: BFieldElement) { let r = o.inverse_or_zero(); }"),            # unknown field method
+    ("refuse", "field", "fn f<FF>(x: &mut [FF], o: BFieldElement) { let r = o.square(); }"),                     # unknown field method
+    # ---- BEGIN P06: wrappers of ntt.rs, `ntt_noswap`, `unscale`
+    ("ok", "field", "fn f<FF>(x: &mut [FF], o: BFieldElement) { let r = o.inverse_or_zero(); for e in x.iter_mut() { *e *= r } }"),   # no `;` after the last assignment
+    ("ok", "field", "fn f(a: &mut [BFieldElement]) { let ninv = BFieldElement::new(a.len() as u64).inverse(); for e in a.iter_mut() { *e *= ninv; } }"),
+    ("ok", "field", "fn f<FF>(x: &mut [FF]) { let n = u32::try_from(x.len()).expect(\"short\"); assert!(n == 0 || n.is_power_of_two()); let l = n.checked_ilog2().unwrap_or(0); let c = BFieldElement::from(x.len()).inverse_or_zero(); for _ in 0..l { x.swap(0, 1); } for e in x.iter_mut() { *e *= c; } }"),
+    ("ok", "field", "fn f<FF>(x: &mut [FF], n: usize) { let p = vec![BFieldElement::ZERO; n]; for (i, z) in p.iter().enumerate().take(2) { let mut v = x[i]; v *= *z; x[i] = v; } }"),
+    ("ok", "field2", "fn f<FF>(x: &mut [FF], w: BFieldElement) { g(x, w); for e in x.iter_mut() { *e *= w; } }"),   # call of a translated slice function
+    ("ok", "field2", "fn f<FF>(x: &mut [FF], w: BFieldElement) { let r = BFieldElement::primitive_root_of_unity(4).unwrap(); h(x, r); }"),   # .. that may run out of fuel
+    ("refuse", "field", "fn f<FF>(x: &mut [FF], w: BFieldElement) { g(x, w); }"),                                # unknown function
+    ("refuse", "field2", "fn f<FF>(x: &mut [FF], w: BFieldElement) { let y = g(x, w); }"),                       # slice function inside an expression
+    ("refuse", "field2", "fn f<FF>(x: &mut [FF], w: BFieldElement) { let y = h(x, w); }"),                       # .. also the fuel-indexed one
+    ("refuse", "field2", "fn f<FF>(x: &mut [FF], w: BFieldElement) { for _ in 0..2 { g(x, w); } }"),             # call statement inside a loop
+    ("refuse", "field2", "fn f<FF>(x: &mut [FF], w: BFieldElement) { g(x); }"),                                  # arity
+    ("refuse", "field2", "fn f<FF>(x: &mut [FF], w: BFieldElement) { g(x, 1); }"),                               # argument type
+    ("refuse", "field", "fn f<FF>(x: &mut [FF], n: usize) { let p = vec![0u64; n]; }"),                          # vec![x; n] of integers
+    ("refuse", "field", "fn f<FF>(x: &mut [FF], n: usize) { let mut p = vec![BFieldElement::ZERO; n]; p.push(BFieldElement::ONE); }"),   # the replicate is a fixed-length array
+    ("refuse", "field", "fn f<FF>(x: &mut [FF], n: usize) { let p = vec![BFieldElement::ZERO; n]; for (i, z) in p.iter().enumerate().skip(1) { let mut v = x[i]; v *= *z; x[i] = v; } }"),   # other adaptor
+    ("refuse", "field", "fn f<FF>(x: &mut [FF], n: usize) { let mut p = vec![BFieldElement::ZERO; n]; for (i, z) in p.iter().enumerate().take(2) { p[i] = *z; } }"),   # body assigns the iterated array
+    ("refuse", "field", "fn f<FF>(x: &mut [FF]) { let n = u32::try_from(x.len()).expect(\"short\"); let l = n.checked_ilog2().unwrap(); }"),   # unwrap of checked_ilog2
+    ("refuse", "field", "fn f<FF>(x: &mut [FF]) { let n = u16::try_from(x.len()).unwrap(); }"),                  # other conversion
+    ("refuse", "field", "fn f<FF>(x: &mut [FF]) { let s = \"abc\"; }"),                                          # string literal as a value
+    ("refuse", "field", "fn f<FF>(x: &mut [FF], o: BFieldElement) { let r = BFieldElement::new(o); }"),          # BFieldElement::new of a non-integer
+    # ---- END P06
 ]
+
+# P06: two field-generic slice functions the "field2" cases may call as statements (`h` contains a `while`)
+SLICE_SRC = """
+fn g<FF>(x: &mut [FF], w: BFieldElement) { for e in x.iter_mut() { *e *= w; } }
+fn h<FF>(x: &mut [FF], w: BFieldElement) { let mut k = 0; while k < x.len() { let mut v = x[k]; v *= w; x[k] = v; k += 1; } }
+"""
+
+
+def register_slice_fns():
+    pfns = {}
+    X.SLICE_FNS.clear()
+    for rn in ("g", "h"):
+        text, params, rty, partial, _ = X.translate_fn_x(SLICE_SRC, rn, "t_" + rn, "<test>", {}, pfns, {}, "(x.length + 1)",
+                                                         field_mode=True, extra_params=[("ops", "opsrec")])
+        X.register_slice_fn(SLICE_SRC, rn, "t_" + rn, params, partial, False, pfns)
+    return pfns
 
 
 def methods_for_struct():
@@ -70,8 +108,13 @@ def main():
     methods = methods_for_struct()
     for exp, mode, src in CASES:
         try:
+            X.SLICE_FNS.clear()
             if mode == "struct":
                 text = X.translate_fn_x("impl X {" + src + "}", "f", "f", "<test>", {}, {}, methods, self_ty=ARR, generic="N")[0]
+            elif mode == "field2":
+                pfns = register_slice_fns()
+                text = X.translate_fn_x(src, "f", "f", "<test>", {}, pfns, {}, field_mode=True,
+                                        extra_params=[("ops", "opsrec"), ("root", "rootfn")])[0]
             else:
                 text = X.translate_fn_x(src, "f", "f", "<test>", {}, {}, {}, field_mode=True, extra_params=[("ops", "opsrec")])[0]
             got = "ok"
